@@ -13,8 +13,11 @@ Maxits == Caps \cup {-1}      \* -1 = no iteration cap (cfg files cannot hold ne
 VARIABLE steps            \* events of the current call (bounds the exploration)
 mvars == <<svars, steps>>
 
-Cfgs == [algo : {"m"}, maxit : Maxits, hasHook : BOOLEAN, hasCons : BOOLEAN, sc : BOOLEAN,
-         hookKind : {"gy", "g", "args"}, iterBy : {"eval", "hook"}, fixed : BOOLEAN]
+(* the four interface shapes that occur: objective with value and derivative, derivative only, *)
+(* finite sums without hook-visible derivative (SAGA), fixed-step routine without user objective *)
+Shapes == {<<"gy", "eval", FALSE>>, <<"g", "eval", FALSE>>, <<"args", "eval", FALSE>>, <<"args", "hook", TRUE>>}
+Cfgs == {[algo |-> "m", maxit |-> m, hasHook |-> h, hasCons |-> c, sc |-> s, hookKind |-> sh[1], iterBy |-> sh[2], fixed |-> sh[3]] :
+           m \in Maxits, h \in BOOLEAN, c \in BOOLEAN, s \in BOOLEAN, sh \in Shapes}
 Rets == [p : Points, err : BOOLEAN, stopOK : BOOLEAN, consOK : BOOLEAN, nearMin : BOOLEAN, startOK : BOOLEAN]
 
 MInit == SkInit /\ steps = 0
@@ -41,7 +44,7 @@ NoEarlyQuiet == (st = "returned" /\ ~ret.err /\ ~hookStopped /\ cfg.maxit >= 0 /
 (* a run can always be ended *)
 CanAlwaysEnd == st = "running" => ENABLED (\E r \in Rets : Return(r))
 (* (S): a hook-requested stop is honoured: the only event that may follow it is the return *)
-HookStopHonoured == [][(hookStopped /\ st = "running") => (st' = "returned" /\ UNCHANGED <<nEvals, nHooks, evalOf, consAt>>)]_mvars
+HookStopHonoured == [][(hookStopped /\ st = "running") => (st' = "returned" /\ UNCHANGED <<nEvals, nHooks>>)]_mvars
 (* (T): nothing is observed after the return until a new call begins *)
 QuietAfterReturn == [][st = "returned" => (st' = "running" /\ nEvals' = 0 /\ nHooks' = 0)]_mvars
 (* (H): hooks only ever see evaluated points when the routine has a user objective *)
